@@ -92,8 +92,8 @@ SCHED_BINS_STAGED = [f"schedsim-{i:02d}" for i in range(32, 38)]
 # Both tiers of C07 / C08 / C12: tasks without component views (resource-only, entry-views-only, identifier-only,
 # empty) next to ordinary ones (schedsim-38, -39), and a task viewing a component immutably through views and entry
 # views next to a writer of that component (schedsim-40, -41), and two-stage schedules whose second-stage tasks are
-# refused / accepted at run time in varying order (schedsim-42 ... -45).
-SCHED_BINS_EXTRA = [f"schedsim-{i:02d}" for i in range(38, 46)]
+# refused / accepted at run time in varying order (schedsim-42 ... -47).
+SCHED_BINS_EXTRA = [f"schedsim-{i:02d}" for i in range(38, 48)]
 SCHED_BINS_STAGED = SCHED_BINS_STAGED + SCHED_BINS_EXTRA
 
 
@@ -130,7 +130,7 @@ STUB_E2 = ["rayon-core join / join_context / current_num_threads (vendored copy 
 ASSUME_E2 = [
     "sampling of schedules x worlds x scheduler decisions: a clean batch is evidence, not proof",
     "brood-internal code between two harness callbacks is atomic to the scheduler; overlap is judged structurally from the recorded fork/join tree (series-parallel paths), so one run covers all interleavings of its tree",
-    "the schedule catalogue is generated at build time (48 schedules / 171 tasks; for C07 C08 C12 also 12 staged schedules / 66 tasks, 6 with tasks that have no component views / 21 tasks and 8 with a component viewed through views and entry views next to its writer / 24 tasks, 8 add-on sequences / 36 tasks; 32 more random ones in the thorough tier) because staging is decided by trait resolution; schedules whose tasks view no resource also run on a world without resources",
+    "the schedule catalogue is generated at build time (48 schedules / 171 tasks; for C07 C08 C12 also 12 staged schedules / 66 tasks, 6 with tasks that have no component views / 21 tasks and 8 with a component viewed through views and entry views next to its writer / 24 tasks, 12 add-on sequences / 53 tasks; 32 more random ones in the thorough tier) because staging is decided by trait resolution; schedules whose tasks view no resource also run on a world without resources",
     "the simulated join reproduces rayon's contract: both closures run to completion, a's panic wins",
 ]
 
